@@ -159,6 +159,13 @@ theorem wfNode_call (a b : Nat) :
 theorem wfNode_other (lens : List (String × Nat)) : wfNode "IfClause" lens = true := by
   simp [wfNode, wfReq]
 
+/-- The tree `RecoverErrors(1)` returns for `case n in (` holds a CaseItem without patterns
+    (harness finding C06-recover-caseitem-no-patterns): it is ill-formed, which is why
+    `CaseItem.Pos()` — one of the unguarded sites above — panics on it. -/
+theorem recovered_caseitem_ill_formed :
+    wfNode "CaseItem" [("Comments", 0), ("Patterns", 0), ("Stmts", 0), ("Last", 0)] = false := by
+  decide
+
 /-! ### stated only -/
 
 /-- Owned by the byte-source layer L2 (lean/ShVerif/Model/L2ByteSrc.lean, property C07; its
